@@ -8,6 +8,7 @@ struct Q gq = { { { 1, 2 }, { .y = 4 } }, "name", -3, { .c = 'z' }, 1.25 }; stru
 struct W gw = { 'c', -16, 1023, 65535, -2 }; struct W gw2 = { .bf2 = -1 }; struct W gw3[2] = { [1] = { .bf1 = 15, .bf3 = 1 } };
 int *gip = &g1[3]; int *gip2 = g1 + 2; char *gcp = gs1 + 1; const char *gstr = "literal" + 2; struct P *gpp = &gp[1]; int *gpy = &gp[2].y; long gdiff = sizeof(gp) / sizeof(gp[0]); void *gnull = 0; int (*gfp)(const char *, ...) = printf; char *garr[] = { "one", "two", gs3, 0 };
 int g2d[2][3] = { { 1 }, { 2, 3 } }; int g2e[][2] = { 1, 2, 3, 4, 5 }; int goverride[4] = { 1, 2, 3, 4, [1] = 9, [0] = 8 }; struct P gover = { .x = 1, .y = 2, .x = 3 };
+unsigned short gw16[3] = u"abc"; unsigned gw32[2] = U"xy"; struct { unsigned short tag[4]; int after; } gwtag = { u"abcd", 7 }; unsigned gw32b[5] = U"xy";
 float gf = 1; double gd = 3; long gl = 2.9; int gneg = -2.9; unsigned char guc = 300 - 50; _Bool gb = 0.1; _Bool gb2 = 256; short gsh = 0x12345; long gl2 = -1; unsigned long gul = -1; char gc = -1; float gf2 = 0.1; double gd2 = 0.1f; int gsz = sizeof(struct Q); long long gll = 1LL << 40;
 static int sloc(void) { static int n = 5; static char buf[4] = "xy"; static struct P sp = { .y = 7 }; n += sp.y + buf[1]; return n; }
 const int ci = 42; static const char sarr[2][4] = { "ab", "cd" };
@@ -24,11 +25,13 @@ int main(void) {
 	dump(gp, sizeof gp); dump(p, sizeof p); P(sizeof p); dump(&gw, sizeof gw); dump(&gw2, sizeof gw2); dump(gw3, sizeof gw3); P(w.bf1); P(w.bf2); P(w.bf3); P(w.t); P(w2.bf2); P(w2.bf1); P(w2.c); P(w3[1].bf1); P(w3[1].bf3); P(w3[0].bf2); P(w3[1].t);
 	P(*gip); P(*gip2); P(*gcp); P(*gstr); P(gpp->x); P(*gpy); P(gdiff); P(gnull == 0); P(gfp == printf); P(garr[0][1]); P(garr[1][2]); P(garr[2] == gs3); P(garr[3] == 0);
 	dump(g2d, sizeof g2d); dump(d2, sizeof d2); dump(g2e, sizeof g2e); dump(e2, sizeof e2); dump(goverride, sizeof goverride); dump(over, sizeof over); P(gover.x); P(ov.x); P(ov.y);
-	PD(gf); PD(gd); P(gl); P(gneg); P(guc); P(gb); P(gb2); P(gsh); P(gl2); P(gul == 18446744073709551615ul); P(gc); PD(gf2); PD(gd2); P(gsz); P(gll);
+	dump(gw16, sizeof gw16); dump(gw32, sizeof gw32); dump(&gwtag, sizeof gwtag); dump(gw32b, sizeof gw32b); PD(gf); PD(gd); P(gl); P(gneg); P(guc); P(gb); P(gb2); P(gsh); P(gl2); P(gul == 18446744073709551615ul); P(gc); PD(gf2); PD(gd2); P(gsz); P(gll);
 	P(sloc()); P(sloc()); P(ci); P(sarr[1][1]); P(sarr[0][3]);
 	dump(vinit, sizeof vinit); P(pv.y); P(qv.p[1].x); P(qv.p[0].y); PD(qv.d); P(qv.name[0]); P(qv.name[1]); P(qv.u.l); P(cp.y); P(zero.y); dump(empty, sizeof empty); P(qz.s); PD(qz.d);
 	{ int i; for (i = 0; i < 3; ++i) { int fresh[4] = { i }; struct P fp = { .y = i }; P(fresh[0] + fresh[3] + fp.x + fp.y); fresh[3] = 99; fp.x = 77; } }
 	{ struct P *cl = &(struct P){ 7, 8 }; P(cl->y); int *ia = (int[]){ 1, 2, 3 }; P(ia[2]); P(((struct P){ .y = x }).y); P(sizeof((char[]){ "abcd" })); cl->x = 5; P(cl->x); P((int){ 9 }); PD((double){ 1 } / 4); char *cs = (char[8]){ "hi" }; P(cs[2] + cs[7]); cs[0] = 'H'; P(cs[0]); }
 	{ long big[40] = { [39] = 1 }; long s = 0; int i; for (i = 0; i < 40; ++i) s += big[i] * (i + 1); P(s); char cbuf[37] = { 1 }; int t = 0; for (i = 0; i < 37; ++i) t += cbuf[i]; P(t); struct { char a; long b; char c; } pad = { 1, 2, 3 }; P(pad.a + pad.b + pad.c); short sa[7] = { [6] = -1 }; P(sa[0] + sa[5] + sa[6]); }
+	{ struct { char s[6]; struct P p; char t[4]; } o = { .s[0] = 'x', .s[5] = 'z', .s = "hello", .p.x = 1, .p.y = 2, .p = pv, .t[0] = 'q', .t[3] = 'r', .t = "abcd" }; dump(o.s, 6); P(o.p.x); P(o.p.y); dump(o.t, 4);
+	  static struct { char s[6]; unsigned short w[4]; } so = { .s[0] = 'x', .s[5] = 'z', .s = "hello", .w[1] = 7, .w[3] = 9, .w = u"abc" }; dump(&so, sizeof so); }
 	return 0;
 }
